@@ -293,15 +293,16 @@ def prep_dumper(yaml):
     return D
 
 
-def run_once(yaml, case, world, payload, faults):
-    """One execution.  Returns an observation dict."""
+def run_once(yaml, case, world, payload, faults, sticky=False):
+    """One execution.  Returns an observation dict.  sticky: the faulted stream keeps failing on
+    every later call (a broken pipe / closed file stays broken)."""
     plan = Plan(faults)
     world['plan'] = plan
     obs = {'items': [], 'exc': None, 'returned': False}
     log = []
     if case['side'] == 'dump':
         wfault = [(i, e) for (ch, i), e in plan.faults.items() if ch == 'w']
-        w = SimWriter(case['stream']['kind'], case['stream']['flush'], fault=wfault[0] if wfault else None, log=log)
+        w = SimWriter(case['stream']['kind'], case['stream']['flush'], fault=wfault[0] if wfault else None, log=log, sticky=sticky)
         api = case['api']
         opts = dict(case['opts'])
         if 'version' in opts:
@@ -346,7 +347,7 @@ def run_once(yaml, case, world, payload, faults):
         sizes = [max(k, floor) for k in (case.get('sizes') or ())]
         then = case.get('then')
         then = max(then, floor) if then is not None else None
-        s = SimReader(data, sizes, then, fault=rfault[0] if rfault else None, log=log)
+        s = SimReader(data, sizes, then, fault=rfault[0] if rfault else None, log=log, sticky=sticky)
         api = case['api']
         L = world['Loader']
         try:
@@ -463,11 +464,15 @@ def execute(case):
 
     def one_fault(point, kind, injected):
         itype, iargs = type(injected), injected.args
-        res = run_once(yaml, case, world, payload, {point: injected})
+        # every other stream fault point is sticky: the stream keeps failing after the injected call
+        sticky = point[0] in ('r', 'w') and kernel.H(case['salt'], 'sticky', point[0], point[1]) % 2 == 1
+        if sticky:
+            out['faults']['sticky-stream'] = out['faults'].get('sticky-stream', 0) + 1
+        res = run_once(yaml, case, world, payload, {point: injected}, sticky=sticky)
         out['evals'] += 1
         exc = res['exc']
         fired = point in res['fired']
-        where = {'point': list(point), 'kind': kind}
+        where = {'point': list(point), 'kind': kind, 'sticky': sticky}
         if fired:
             out['faults'][point[0] + ':' + kind] = out['faults'].get(point[0] + ':' + kind, 0) + 1
             out['sigs'].append(observe.digest([cdig, point, kind]))
